@@ -199,14 +199,20 @@ theorem Binary_AppendMessageBegin_eq (buf name : Bytes) (typ seq : Int) :
 /-! ## length functions: against `Wire.length` / `Wire.lenMessageBegin`.  Go `int` is 64 bits: `4 + len(v)` is exact for
     `len(v) < 2^62` (any real slice) -/
 
+/-- the length functions over a byte string: unfold (also a sibling `*Length` the Go source may delegate to), remove
+    every `int` wrap-around by its range condition (`omega`, from `len < 2^62`), compare the sums with `omega` — the
+    order of the operands and any hoisted local play no role -/
+macro "length_omega" h:ident : tactic => `(tactic| (
+  have h' : List.length _ < 4611686018427387904 := $h
+  repeat (first
+    | unfold Funcs.Binary_MessageBeginLength | unfold Funcs.Binary_StringLength | unfold Funcs.Binary_BinaryLength
+    | unfold Funcs.Binary_StringLengthNocopy | unfold Funcs.Binary_BinaryLengthNocopy)
+  go_simp [wrap_i64_of_range, Wire.length, Wire.lenMessageBegin]
+  all_goals omega))
+
 theorem Binary_MessageBeginLength_eq (name : Bytes) (h : name.length < 2 ^ 62) :
     Funcs.Binary_MessageBeginLength name = .ok ((Wire.lenMessageBegin name : Nat) : Int) := by
-  unfold Funcs.Binary_MessageBeginLength Wire.lenMessageBegin
-  have h' : name.length < 4611686018427387904 := h
-  simp only [len, Out.pure_eq]
-  simp (disch := omega) only [wrap_i64_of_range]
-  simp only [Out.ok.injEq]
-  omega
+  length_omega h
 
 theorem Binary_FieldBeginLength_eq (t : UInt8) (id : Int) :
     Funcs.Binary_FieldBeginLength = .ok ((Wire.length (.fieldBegin t id) : Nat) : Int) := rfl
@@ -240,23 +246,19 @@ theorem wrap_len4 (s : Bytes) (h : s.length < 2 ^ 62) : wrap .i64 (4 + len s) = 
 
 theorem Binary_StringLength_eq (s : Bytes) (h : s.length < 2 ^ 62) :
     Funcs.Binary_StringLength s = .ok ((Wire.length (.str s) : Nat) : Int) := by
-  unfold Funcs.Binary_StringLength Wire.length
-  simp only [Out.pure_eq, wrap_len4 s h]
+  length_omega h
 
 theorem Binary_BinaryLength_eq (s : Bytes) (h : s.length < 2 ^ 62) :
     Funcs.Binary_BinaryLength s = .ok ((Wire.length (.binary s) : Nat) : Int) := by
-  unfold Funcs.Binary_BinaryLength Wire.length
-  simp only [Out.pure_eq, wrap_len4 s h]
+  length_omega h
 
 theorem Binary_StringLengthNocopy_eq (s : Bytes) (h : s.length < 2 ^ 62) :
     Funcs.Binary_StringLengthNocopy s = .ok ((Wire.length (.str s) : Nat) : Int) := by
-  unfold Funcs.Binary_StringLengthNocopy Wire.length
-  simp only [Out.pure_eq, wrap_len4 s h]
+  length_omega h
 
 theorem Binary_BinaryLengthNocopy_eq (s : Bytes) (h : s.length < 2 ^ 62) :
     Funcs.Binary_BinaryLengthNocopy s = .ok ((Wire.length (.binary s) : Nat) : Int) := by
-  unfold Funcs.Binary_BinaryLengthNocopy Wire.length
-  simp only [Out.pure_eq, wrap_len4 s h]
+  length_omega h
 
 /-! ## the generated functions compute (closed instances).  No function of this group has an error result or a reachable
     panic (no indexing, slicing or division in their bodies), so there is no error/panic instance to exhibit: the
